@@ -52,7 +52,10 @@ where
     }
 
     fn call(&mut self, req: Req) -> Self::Future {
-        let mut inner = self.inner.clone();
+        // Take the instance that `poll_ready` was called on (a fresh clone has not been
+        // polled and may not be ready) and leave a clone in its place.
+        let clone = self.inner.clone();
+        let mut inner = std::mem::replace(&mut self.inner, clone);
         let config = Arc::clone(&self.config);
         let rng = Arc::clone(&self.rng);
 
